@@ -337,7 +337,7 @@ func TestC02Mutated(t *testing.T) {
 			case 0:
 				toks = append(toks[:at:at], toks[at+1:]...)
 			case 1:
-				lx := rapid.SampledFrom(c02Alphabet).Draw(rt, "lexeme")
+				lx := rapid.SampledFrom(c01Alphabet).Draw(rt, "lexeme") // full alphabet incl. hostile lexemes
 				toks = append(toks[:at:at], append([]ref.PTok{{Text: lx}}, toks[at:]...)...)
 			case 2:
 				if at+1 < len(toks) {
@@ -352,7 +352,8 @@ func TestC02Mutated(t *testing.T) {
 		seps := make([]string, len(toks)+1)
 		for i := 1; i < len(toks); i++ {
 			seps[i] = " "
-			if !toks[i].NoNLBefore && rapid.IntRange(0, 7).Draw(rt, "nl") == 0 {
+			afterDot := toks[i-1].Text == "." || toks[i-1].Text == "!."
+			if !toks[i].NoNLBefore && (rapid.IntRange(0, 7).Draw(rt, "nl") == 0 || afterDot && rapid.Bool().Draw(rt, "nldot")) {
 				seps[i] = "\n"
 			}
 		}
@@ -443,4 +444,38 @@ func enumSeqAll(n, k int, f func(seq []int)) {
 			}
 		}
 	}
+}
+
+// TestC02DotNewline: a member name on the line after its dot (the parser's
+// speculative path), followed by every pair of tokens of the full alphabet.
+func TestC02DotNewline(t *testing.T) {
+	run := h.Begin("C02", "dot-newline", "bounded-exhaustive: context {_, [_], f(_), (_), [x, _], f(x, _), _ + y} x 'a' ('.'|'!.') <line break> name(b|null|typeof) x every pair of following tokens over the full 54-lexeme alphabet (incl. hostile lexemes) and the empty token; oracle: reference parser; non-trivial: all (a line break inside a member access plus trailing tokens)")
+	defer run.End(t)
+	ctxs := []string{"_", "[_]", "f(_)", "(_)", "[x, _]", "f(x, _)", "_ + y"}
+	tail := append([]string{""}, c01Alphabet...)
+	var idx int64
+	for _, cx := range ctxs {
+		for _, sel := range []string{".", "!."} {
+			for _, name := range []string{"b", "null", "typeof"} {
+				for _, t1 := range tail {
+					for _, t2 := range tail {
+						idx++
+						if !h.Mine(idx) || run.NViolations() >= 3 {
+							continue
+						}
+						core := "a" + sel + "\n" + name + " " + t1 + " " + t2
+						text := strings.ReplaceAll(cx, "_", core)
+						run.Count(true, "")
+						if idx%7919 == 0 {
+							run.Sample("dot-newline", text)
+						}
+						if msg := checkGrammar(text, ""); msg != "" {
+							run.Fail("c02", mkTextCase(text, ""), msg)
+						}
+					}
+				}
+			}
+		}
+	}
+	run.Exhaustive()
 }
